@@ -712,6 +712,27 @@ Section Proofs.
     exists ev. rewrite He, Hmw, Hms in *. repeat split; assumption.
   Qed.
 
+  (* presence is decided by the KEY, never by the value: whatever value is stored under k (Go's
+     nil included -- V is arbitrary), Peek / Contains / PeekOrAdd / ContainsOrAdd find it *)
+  Theorem presence_by_key k v w (c : cache) :
+    (In k (keys c) ->
+       exists v0, In (k, v0) (pairs c) /\ peek keqb k c = Some v0 /\ contains keqb k c = true /\
+                  peek_or_add keqb k v w c = (c, [], Some v0, 0) /\
+                  contains_or_add keqb k v w c = (c, [], true, 0)) /\
+    (~ In k (keys c) ->
+       peek keqb k c = None /\ contains keqb k c = false /\
+       peek_or_add keqb k v w c = (let '(c', lg, n) := add keqb k v w c in (c', lg, None, n)) /\
+       contains_or_add keqb k v w c = (let '(c', lg, n) := add keqb k v w c in (c', lg, false, n))).
+  Proof.
+    unfold keys, peek_or_add, contains_or_add, contains, peek. rewrite map_rev. split; intros H.
+    - apply in_rev in H. destruct (find_entry_in k _ H) as [e F]. rewrite F.
+      destruct (find_entry_some _ _ _ F) as [Hi Hk]. exists (e_val e). repeat split; auto.
+      unfold pairs. apply in_map_iff. exists e. split; [unfold kv; rewrite Hk; reflexivity | exact Hi].
+    - assert (F : find_entry keqb k (c_entries c) = None).
+      { apply find_entry_none. intros Hin. apply H. apply -> in_rev. exact Hin. }
+      rewrite F. repeat split; reflexivity.
+  Qed.
+
   (* ---------- histories ---------- *)
   (* states reachable from the constructor by any sequence of operations with small weights *)
   Definition reachable (c : cache) : Prop :=
